@@ -242,6 +242,7 @@ func c09Run(e *Env) {
 	pump()
 
 	var ops []*c09Op
+	nstartChanged := 0
 	closedAt := time.Duration(-1)
 	closeReturned := 0
 	closeCalls := 0
@@ -409,6 +410,16 @@ func c09Run(e *Env) {
 					w.Emit(it, false)
 				}})
 			}
+		}
+		if IsDatagram(tr) && nstartChanged < 2 {
+			// the application re-tunes the connection while requests are queued behind NSTART
+			evs = append(evs, Event{Label: "set-nstart", W: 2, Do: func() {
+				nstartChanged++
+				n := uint32(1 + t.Choose(3))
+				e.Fault("conn.nstartChanged")
+				e.Logf("application sets NSTART to %d", n)
+				w.UCC.Transmission().SetTransmissionNStart(n)
+			}})
 		}
 		evs = append(evs, Event{Label: "advance", W: 3, Do: func() {
 			dt := []time.Duration{tickEvery, time.Second, 2 * time.Second, 7 * time.Second}[t.Choose(4)]
